@@ -293,6 +293,11 @@ def tasks_for(tier):
                 continue
             tasks.append((tier, b, 'one', opname, op, PRE))
         if tier != 'thorough':
+            # quick: the one pair family that re-uses per-process temporary names -- this process has already overwritten
+            # the key once, and is killed while touching it again
+            for opname, op in operations(tier):
+                if opname in ('overwrite', 'del', 'update', 'clear', 'dump'):
+                    tasks.append((tier, b, 'one', opname, op, (('set', 'k1', 'mid1'),), 'overwrite'))
             continue
         # thorough: every ordered pair (first operation without faults, second operation crashed at every point) on one
         # handle, from two prior stores -- the second operation starts from whatever the first one left behind in the
